@@ -71,7 +71,7 @@ _Q = "kani/query/evaluator.rs"
 PROPS["C20"] = {
     "title": "ORDER BY sorts and SKIP/LIMIT slice it",
     "kani": [(_Q, r"^c20_")],
-    "e2": ["c20"],
+    "e2": ["c20", "c20b"],
     "functions_encoded": ["nervusdb_query::evaluator::order_compare", "evaluator_compare::order_compare_non_null",
                           "evaluator_compare::compare_f64_with_nan", "evaluator_compare::value_order_rank",
                           "plan_tail::evaluate_row_window_expression", "plan_tail::execute_skip", "plan_tail::execute_limit"],
